@@ -182,7 +182,12 @@ def gen_book(rnd, xlsx_safe=False):
     cb = CBook()
     wb = cb.wb
     n = rnd.randint(2, 8)
-    cb.nodes = [(0, 1 + i, 1) for i in range(n)]                  # A1..An
+    # nodes on the odd rows of column A; the even rows hold fillers (a constant or nothing), so that a two-cell range
+    # contains one node only and a three-cell range two
+    cb.nodes = [(0, 1 + 2 * i, 1) for i in range(n)]
+    for i in range(n):
+        if rnd.random() < 0.5:
+            wb.cells[(0, 2 + 2 * i, 1)] = ('v', rnd.choice([1, 2, 5, 0.5]))
     # guard constants in column C, plain constants in column D
     ng = rnd.randint(1, 4)
     for k in range(ng):
@@ -206,11 +211,12 @@ def gen_book(rnd, xlsx_safe=False):
         if k < 0.6 or (no_ranges and k < 0.8):
             return cell_ref(a)
         if k < 0.8:
-            lo = max(1, a[1] - rnd.randint(0, 1)); hi = min(n, a[1] + rnd.randint(0, 1))
-            if lo == hi:
-                hi = min(n, hi + 1); lo = lo if hi > lo else max(1, lo - 1)
-            if lo == hi:
-                return cell_ref(a)
+            if rnd.random() < 0.7:
+                lo, hi = a[1], a[1] + 1                      # the node and the filler below it
+            else:
+                lo, hi = a[1], min(2 * n - 1, a[1] + 2)      # two nodes
+                if lo == hi:
+                    lo = max(1, lo - 2)
             return ('call', 'SUM', [('ref', (0, lo, hi, 1, 1))])
         nm = 'NODE%d' % j
         if nm not in names:
@@ -307,6 +313,49 @@ def gen_book(rnd, xlsx_safe=False):
                         ('call', 'IF', [guard_cond(), cell_ref(cb.consts[0]), cell_ref(cb.consts[1])])])
         wb.cells[a] = ('f', e)
         cb.isolated.append(a)
+    return cb
+
+
+def gen_two_cycles(rnd):
+    """structured: two cycles, each closed through a guarded back edge, and a cell of the first cycle that also reads,
+    outside its guard, a range over a cell of the second; positions and guard values vary"""
+    cb = CBook()
+    wb = cb.wb
+    g1, g2 = (0, 1, 3), (0, 2, 3)
+    cb.guards = [g1, g2]
+    for g in cb.guards:
+        v = rnd.choice([0, 1, True, False, BLANK, 'abc', Err('#N/A')])
+        if v is not BLANK:
+            wb.cells[g] = ('v', v)
+    cb.consts = [(0, 1, 4), (0, 2, 4), (0, 3, 4)]
+    for a in cb.consts:
+        wb.cells[a] = ('v', rnd.choice([1, 2, 3, 5]))
+    rows = [1, 3, 5, 7, 9]
+    rnd.shuffle(rows)
+    col1, col2 = rnd.sample([1, 2, 5, 8], 2)
+    A, B = (0, rows[0], col1), (0, rows[1], col1)
+    E, F, G = (0, rows[2], col2), (0, rows[3], col2), (0, rows[4], col2)
+    E2 = (0, E[1] + 1, col2)
+    wb.cells[E2] = ('v', 2)
+    cb.nodes = [A, B, E, F, G]
+
+    def guard(gcell, back, alt):
+        f = rnd.choice(['IF', 'IF2', 'IFS', 'IFERROR', 'IFNA'])
+        if f == 'IF':
+            return ('call', 'IF', [cell_ref(gcell), back, alt])
+        if f == 'IF2':
+            return ('call', 'IF', [('bin', '>', cell_ref(gcell), ('lit', 0)), alt, back])
+        if f == 'IFS':
+            return ('call', 'IFS', [cell_ref(gcell), back, ('lit', True), alt])
+        return ('call', f, [cell_ref(gcell), back])
+    extra = rnd.choice([('call', 'SUM', [('ref', (0, E[1], E[1] + 1, col2, col2))]), cell_ref(E), ('lit', 1), cell_ref(cb.consts[0])])
+    wb.cells[A] = ('f', ('bin', '+', guard(g1, cell_ref(B), ('lit', 3)), extra))
+    wb.cells[B] = ('f', ('bin', '+', cell_ref(A), ('lit', 1)))
+    wb.cells[E] = ('f', guard(rnd.choice([g1, g2]), cell_ref(F), ('lit', 1)))
+    wb.cells[F] = ('f', ('bin', '+', cell_ref(G), ('lit', 1)))
+    wb.cells[G] = ('f', ('bin', '+', cell_ref(E), ('lit', 1)) if rnd.random() < 0.7 else ('bin', '+', cell_ref(E), cell_ref(A)))
+    cb.observers = [(0, 11, 6)]
+    wb.cells[(0, 11, 6)] = ('f', ('bin', '+', cell_ref(A), ('lit', 1)))
     return cb
 
 
@@ -605,7 +654,7 @@ def part_b(run):
     # ---- phase 1: generate, ask the model for the static conditions --------------------------------------------------
     req1 = []
     for k in range(n_books):
-        cb = gen_book(rnd, xlsx_safe=(k % 10 == 3))
+        cb = gen_two_cycles(rnd) if k % 3 == 1 else gen_book(rnd, xlsx_safe=(k % 10 == 3))
         conds = []
         for a, cont in cb.wb.cells.items():
             if cont[0] == 'f':
@@ -645,13 +694,33 @@ def part_b(run):
         run.count(1, json.dumps(case, sort_keys=True, default=str), bool(cyc),
                   'cyclic=%s/lazy-resolvable=%s' % (bool(cyc), bool(cyc) and not pcyc))
         # a range that is read only in unselected branches and contains a cell of a selected-branch cycle
+        # known finding `range-on-other-cycle`, narrowly: a reference that sits only in unselected branches (it disappears in
+        # the selected-branch workbook) is (i) a multi-cell range containing a cyclic cell, or (ii) a cell that belongs to
+        # some multi-cell range of the workbook which contains another cyclic cell (reached through the range's inverse link)
+        def refs_of(w, e):
+            out = set()
+            for kk, x in w.deps(e):
+                if kk == 'ref':
+                    out.add(x)
+                else:
+                    out |= refs_of(w, w.names[x][1])
+            return out
+        all_multi = set()
+        for a, cont in wb.cells.items():
+            if cont[0] == 'f':
+                all_multi |= {x for x in refs_of(wb, cont[1]) if (x[1], x[3]) != (x[2], x[4])}
+        cells_in = lambda x: {(x[0], i, j) for i in range(x[1], x[2] + 1) for j in range(x[3], x[4] + 1)}
         flag = False
         for a, cont in wb.cells.items():
             if cont[0] != 'f':
                 continue
-            for kk, x in wb.deps(cont[1]):
-                if kk == 'ref' and (x[1], x[3]) != (x[2], x[4]):
-                    if {(x[0], i, j) for i in range(x[1], x[2] + 1) for j in range(x[3], x[4] + 1)} & cyc:
+            for x in refs_of(wb, cont[1]) - refs_of(pw, pw.cells[a][1]):
+                cx = cells_in(x)
+                if len(cx) > 1 and cx & cyc:
+                    flag = True
+                elif len(cx) == 1:
+                    v = next(iter(cx))
+                    if any(v in cells_in(R) and (cells_in(R) - {v}) & cyc for R in all_multi):
                         flag = True
         case['range_over_cyclic_cell'] = flag
         case['absorbing_on_cycle'] = any(cont[0] == 'f' and absorbs(wb, cont[1], cyc) for a, cont in wb.cells.items() if a in cyc)
